@@ -79,6 +79,9 @@ AxiHoop(r) == \A n \in 1..Len(r.F) : /\ Abs(M(FAt(r, n, 3, 3) - S, r.xq[n][2]) -
                                      /\ \A k \in 1..2 : FAt(r, n, 3, k) = 0 /\ FAt(r, n, k, 3) = 0
 \* dual (cell-wise constant) fields: one value per cell at all of its points
 DualConstantPerCell(r) == \A c \in 1..Len(r.percell) : \A n \in 1..Len(r.percell[c]) : r.percell[c][n] = r.percell[c][1]
+\* ... one INDEPENDENT unknown per cell: as many unknowns as cells, and (unknowns set to 1, 2, 3, ...) no two cells show the same value
+DualIndependentPerCell(r) == /\ \A n \in 1..Len(r.nunknowns) : r.nunknowns[n] = r.ncells
+                             /\ \A n \in 1..Len(r.cellvalue) : \A a, b \in 1..Len(r.cellvalue[n]) : a # b => r.cellvalue[n][a] # r.cellvalue[n][b]
 
 \* ---- quadrature sufficiency, fast paths, copies
 Near(a, b, tol) == Len(a) = Len(b) /\ \A n \in 1..Len(a) : Abs(a[n] - b[n]) <= tol
@@ -96,6 +99,7 @@ Clauses(r) == CASE r.kind = "volume" -> {"Positive", "VolumeSum", "NoWarningWhen
                 [] r.kind = "axisymmetric" -> {"InPlaneIsIdentityPlusGrad", "AxiHoop"}
                 [] r.kind = "hesspad" -> {"HessPadding"}
                 [] r.kind = "dual" -> {"DualConstantPerCell"}
+                [] r.kind = "dualindep" -> {"DualConstantPerCell", "DualIndependentPerCell"}
                 [] r.kind = "gram" -> {"GramExact"}
                 [] r.kind = "uniform" -> {"UniformEqualsGeneral"}
                 [] r.kind = "astype" -> {"AstypeCopy"}
@@ -105,7 +109,7 @@ HoldsR(c, r) == CASE c = "Positive" -> Positive(r) [] c = "VolumeSum" -> VolumeS
                   [] c = "ReproduceValue" -> ReproduceValue(r) [] c = "ReproduceGradient" -> ReproduceGradient(r)
                   [] c = "ReproduceHessian" -> ReproduceHessian(r)
                   [] c = "InPlaneIsIdentityPlusGrad" -> InPlaneIsIdentityPlusGrad(r) [] c = "PlaneStrainPadding" -> PlaneStrainPadding(r)
-                  [] c = "AxiHoop" -> AxiHoop(r) [] c = "DualConstantPerCell" -> DualConstantPerCell(r) [] c = "HessPadding" -> HessPadding(r)
+                  [] c = "AxiHoop" -> AxiHoop(r) [] c = "DualConstantPerCell" -> DualConstantPerCell(r) [] c = "HessPadding" -> HessPadding(r) [] c = "DualIndependentPerCell" -> DualIndependentPerCell(r)
                   [] c = "GramExact" -> GramExact(r) [] c = "UniformEqualsGeneral" -> UniformEqualsGeneral(r) [] c = "AstypeCopy" -> AstypeCopy(r)
 ApplicableR(r) == Clauses(r)
 FailingR(r) == {c \in Clauses(r) : ~HoldsR(c, r)}
